@@ -99,4 +99,40 @@ Theorem C13_delete_inflight_refuted :
 Proof. exact @delete_inflight_refuted. Qed.
 Print Assumptions C13_delete_inflight_refuted.
 
+(* structural updates around a parallel process: reading its schema (view rebuild), asking is_step() (re-registration) and moving its node never fail and change nothing, whatever its state - in particular while an update is in flight *)
+Theorem C13_quiet_run :
+  forall (cs : list pcmd) (s : pp), forallb quiet cs = true -> prun s cs = inl s.
+Proof. exact @quiet_run. Qed.
+Print Assumptions C13_quiet_run.
+
+(* ... so they can be interleaved anywhere into the life of the process without changing it *)
+Theorem C13_quiet_insert :
+  forall (a q b : list pcmd) (s : pp),
+         forallb quiet q = true -> prun s (a ++ q ++ b) = prun s (a ++ b).
+Proof. exact @quiet_insert. Qed.
+Print Assumptions C13_quiet_insert.
+
+(* the engine trace with structural updates between every send and its collection, then end() once or several times: never trips the pending safeguard, the worker is told to stop *)
+Theorem C13_engine_protocol_struct_ok :
+  forall (rounds ends : nat) (q : list pcmd),
+         (0 < ends)%nat ->
+         forallb quiet q = true ->
+         exists s' : pp,
+           prun fresh (concat (repeat ([CSend] ++ q ++ [CGet]) rounds) ++ repeat CEnd ends) = inl s' /\
+           alive s' = false /\ ended s' = true.
+Proof. exact @engine_protocol_struct_ok. Qed.
+Print Assumptions C13_engine_protocol_struct_ok.
+
+(* the pinned code (schema / is_step as commands to the worker) refuses the query while an update is in flight (F24) *)
+Theorem C13_query_in_flight_refuted_pinned :
+  prun_pinned fresh [CSend; CQuery; CGet] = inr StillPending.
+Proof. exact @query_in_flight_refuted_pinned. Qed.
+Print Assumptions C13_query_in_flight_refuted_pinned.
+
+(* the pinned Store.move ended the worker of the process it moved: the next command fails (F25) *)
+Theorem C13_move_ends_worker_refuted_pinned :
+  prun_pinned fresh [CSend; CGet; CMoved; CSend] = inr Ended.
+Proof. exact @move_ends_worker_refuted_pinned. Qed.
+Print Assumptions C13_move_ends_worker_refuted_pinned.
+
 
